@@ -86,7 +86,9 @@ def run_tlc(module, cfg_text, rundir, workers=1, env=None, extra=None, timeout=1
     f.write(cfg_text)
   meta = os.path.join(rundir, 'meta_' + module)
   shutil.rmtree(meta, ignore_errors=True)
-  cmd = ['java', '-XX:+UseParallelGC']
+  cmd = ['java']
+  if not (java_opts and any('GC' in o for o in java_opts)):
+    cmd.append('-XX:+UseParallelGC')
   if java_opts:
     cmd += list(java_opts)
   cmd += ['-cp', TLA_JAR + ':' + CM_JAR, 'tlc2.TLC', '-metadir', meta, '-noGenerateSpecTE',
